@@ -5,6 +5,8 @@
 #include <cinttypes>
 #include <set>
 #include <map>
+#include <unistd.h>
+#include <sys/wait.h>
 
 namespace vf {
 
@@ -58,6 +60,20 @@ static inline TraceSummary summarise(int outwin, bool verbose = false) {
     return s;
 }
 static inline uint64_t set_digest(const std::set<long>& st) { uint64_t h = 0; for (long x : st) h = hstep(h, (uint64_t)x); return h; }
+
+// run one case in a forked child so that a crash of the library code (segfault, abort, trap) is
+// reported as a failing case instead of killing the whole harness.  The case must print its
+// `<cmd k=v...>` prefix and flush BEFORE touching the library; on a crash the parent completes the line.
+template<class F> static inline void guarded(F f) {
+    std::fflush(stdout);
+    pid_t p = fork();
+    if (p == 0) { f(); std::fflush(stdout); _exit(0); }
+    int st = 0; waitpid(p, &st, 0);
+    if (!(WIFEXITED(st) && WEXITSTATUS(st) == 0)) {
+        std::printf(" | CRASH=%d ORACLE=FAIL\n", WIFSIGNALED(st) ? WTERMSIG(st) : -WEXITSTATUS(st));
+        std::fflush(stdout);
+    }
+}
 
 } // namespace vf
 #endif
